@@ -4,7 +4,7 @@ use ixdtf::parsers::{records::UtcOffsetRecordOrZ, IxdtfParser};
 
 use crate::{builtins::timezone::UtcOffset, TemporalError, TemporalResult, TimeZone};
 
-use super::{parse_ixdtf, ParseVariant};
+use super::{is_ambiguous_time_string, parse_ixdtf, ParseVariant};
 
 #[inline]
 pub(crate) fn parse_allowed_timezone_formats(s: &str) -> Option<TimeZone> {
@@ -12,8 +12,11 @@ pub(crate) fn parse_allowed_timezone_formats(s: &str) -> Option<TimeZone> {
         parse_ixdtf(s, ParseVariant::DateTime).map(|r| (r.offset, r.tz))
     {
         (offset, annotation)
-    } else if let Ok((offset, annotation)) = IxdtfParser::from_str(s)
+    } else if let Some((offset, annotation)) = IxdtfParser::from_str(s)
         .parse_time()
+        .ok()
+        // `2020-01` is a year-month, not 20:20 at offset -01.
+        .filter(|_| !is_ambiguous_time_string(s))
         .map(|r| (r.offset, r.tz))
     {
         (offset, annotation)
